@@ -417,6 +417,9 @@ func Gen(cfg Config) func(t *rapid.T) Script {
 				if op.Mode == 2 && cfg.NoWrongOffset {
 					op.Mode = 1
 				}
+				if cfg.UnknownResumeID && rapid.IntRange(0, 3).Draw(t, "foreignRepo") == 0 {
+					op.Mode = 3 // the session's id presented in repository R (drawn independently of the session's)
+				}
 				if op.Mode == 2 {
 					op.N = rapid.SampledFrom([]int{-1, 1, 2, 100}).Draw(t, "offsetDelta")
 					sh.pending[op.W] = true
